@@ -82,7 +82,6 @@ def gen_scenario(tape):
     sc.npre = tape.draw(3, "npre")
     sc.pre_kinds = [tape.choice(["call", "run"], "prekind") for _ in range(sc.npre)]
     sc.fc = tape.chance(1, 6, "fc-upstream") and not sc.reuse
-    sc.recompute_fixed = [tape.chance(1, 4, "recompute-fixed") for _ in range(2)]
     sc.bare = bool(tape.draw(2, "bare-cache-in-split"))
     sc.nmid = tape.draw(2, "nmid") if sc.ncaches == 2 else 0
     sc.npost = tape.draw(3, "npost")
@@ -93,6 +92,8 @@ def gen_scenario(tape):
     sc.nest = tape.chance(1, 5, "nest")
     nops = 1 + tape.draw(5, "nops")
     sc.ops = []
+    cur_flags = [False] * sc.ncaches
+    have_object = False
     for _ in range(nops):
         op = Op()
         op.kind = tape.weighted([(5, "complete"), (4, "stop"), (2, "raise-down"),
@@ -100,8 +101,20 @@ def gen_scenario(tape):
         op.n = tape.draw(7, "flowlen")
         op.recompute = [tape.chance(1, 6, "recompute") for _ in range(sc.ncaches)]
         op.hoist = tape.weighted([(4, "none"), (2, "cache"), (1, "core")], "hoist")
+        op.rebuild = True
         if sc.reuse:
-            op.recompute = sc.recompute_fixed[:sc.ncaches]
+            # now and then the object is built anew (a new process); in between it is re-used
+            # and keeps the recompute flags it was built with.  drop_cache never builds a
+            # new object when one exists.
+            if op.kind == "drop":
+                op.rebuild = False
+            else:
+                op.rebuild = tape.chance(1, 3, "rebuild") or not have_object
+            if op.rebuild:
+                cur_flags = list(op.recompute)
+            else:
+                op.recompute = list(cur_flags)
+            have_object = True
         if sc.form == "split":
             op.hoist = "none"
         op.k = 0
@@ -333,8 +346,7 @@ def run(tape):
     allowed = [[None] for _ in range(sc.ncaches)]
     shared = {"pl": None}
     if sc.reuse:
-        res.say("the same pipeline object is used for every operation (recompute=%s)"
-                % sc.recompute_fixed[:sc.ncaches])
+        res.say("pipeline objects are re-used between runs unless a run says 'new object'")
     last_interrupt = None      # kind of the last interrupted dump run
     interrupted_before = False
     r = 0
@@ -371,6 +383,8 @@ def run(tape):
                 desc += " recompute=%s" % op.recompute
             if op.hoist != "none":
                 desc += " hoist=%s" % op.hoist
+            if sc.reuse and op.rebuild and r > 1:
+                desc += " (new object)"
             if op.eio:
                 desc += " EIO at read %d" % op.eio
             if op.crash:
@@ -428,7 +442,8 @@ def _plain_op(sc):
     op.n = 0
     op.k = 0
     op.target = None
-    op.recompute = sc.recompute_fixed[:sc.ncaches] if sc.reuse else [False] * sc.ncaches
+    op.recompute = [False] * sc.ncaches
+    op.rebuild = True
     op.hoist = "none"
     op.eio = None
     op.crash = None
@@ -443,7 +458,7 @@ def execute_run(sc, op, log, r, res, fs, shared=None):
     pl = None
     gen = None
     try:
-        if shared is not None and sc.reuse and shared["pl"] is not None:
+        if shared is not None and sc.reuse and shared["pl"] is not None and not op.rebuild:
             pl = shared["pl"]
             pl.configure(op, r)
             res.probe("same-object-reused")
